@@ -123,3 +123,6 @@ func (v V) Equal(w V) bool { return v.Coq() == w.Coq() }
 
 // Items returns the elements of a list value (nil for scalars).
 func (v V) Items() []V { return v.l }
+
+// Big returns the integer of a numeric value (nil otherwise).
+func (v V) Big() *big.Int { return v.z }
